@@ -289,6 +289,7 @@ for splice in (True, False):
     if not THOROUGH and not splice:
         sts = [s for s in sts if s[0].startswith('tunnel-blocked') or s[0].startswith('stuck') or s[1] in (0, 1)]
     held_all = []
+    wedged = False
     for phase in ('each state alone', 'all states together'):
         for kind, param, opener in sts:
             if phase == 'all states together' and not THOROUGH and isinstance(param, int) and param % 3:
@@ -296,6 +297,11 @@ for splice in (True, False):
             try:
                 held = opener()
             except Exception as e:
+                if any(v['known'] is None for v in chk.sigs.values()):
+                    # probes already failed: a listener that no longer lets a client in is part of that failure
+                    chk.violation(f'stall.{kind}', 'listener-no-longer-serves-new-clients', f'useSplice={splice}: after the violations above a client cannot even enter state {kind}/{param}: {e!r}', {'state': kind, 'k': param, 'useSplice': splice})
+                    wedged = True
+                    break
                 machinery(f'cannot enter state {kind}/{param}: {e!r}')
             time.sleep(0.05)
             if phase == 'each state alone':
@@ -315,6 +321,8 @@ for splice in (True, False):
                         pass
             else:
                 held_all += held
+        if wedged:
+            break
         if phase == 'all states together':
             time.sleep(0.3)
             for rnd in range(3):
